@@ -105,6 +105,20 @@ impl Scn {
     fn opt(&self, o: &str) -> bool {
         self.opts.iter().any(|x| x == o)
     }
+
+    /// value of an option `key=value`
+    fn opt_val(&self, key: &str) -> Option<&str> {
+        self.opts.iter().find_map(|x| x.strip_prefix(key).and_then(|r| r.strip_prefix('=')))
+    }
+
+    /// stdout / stderr are piped but stay inside the `Child` (dropped when the wait has completed)
+    fn out_held(&self) -> bool {
+        self.plan == "outheld" || self.plan == "allheld"
+    }
+
+    fn err_held(&self) -> bool {
+        self.plan == "errheld" || self.plan == "allheld"
+    }
 }
 
 fn parse_act(t: &str) -> Option<Act> {
@@ -161,7 +175,7 @@ fn parse_line(l: &str) -> Option<Scn> {
     };
     let ok = ["uring", "poll"].contains(&sc.drv.as_str())
         && ["pool", "pidfd"].contains(&sc.route.as_str())
-        && ["conc", "drainwait", "waitdrain", "seq", "held"].contains(&sc.plan.as_str())
+        && ["conc", "drainwait", "waitdrain", "seq", "held", "outheld", "errheld", "allheld"].contains(&sc.plan.as_str())
         && sc.wch > 0
         && sc.rch > 0
         && sc.script.iter().all(|a| !matches!(a, Act::Copy { blk: 0, .. }));
@@ -485,6 +499,7 @@ fn oracle(sc: &Scn, cmd: &str, payload: &[u8], file: &str) -> Obs {
         c.stdout(Stdio::piped()).stderr(Stdio::piped());
     }
     unsafe { c.pre_exec(set_pipe_sizes(sc.capin, sc.capout, sc.caperr)) };
+    c.process_group(0);
     let mut child = match c.spawn() {
         Ok(c) => c,
         Err(e) => {
@@ -493,7 +508,7 @@ fn oracle(sc: &Scn, cmd: &str, payload: &[u8], file: &str) -> Obs {
         }
     };
     use std::io::{Read, Write};
-    let held = sc.plan == "held";
+    let held = sc.plan == "held" || sc.plan == "allheld";
     let stdin = if held { None } else { child.stdin.take() };
     let pay = payload.to_vec();
     let wt = std::thread::spawn(move || match stdin {
@@ -504,7 +519,7 @@ fn oracle(sc: &Scn, cmd: &str, payload: &[u8], file: &str) -> Obs {
         },
         None => "ok".to_string(),
     });
-    let stderr = child.stderr.take();
+    let stderr = if sc.err_held() { None } else { child.stderr.take() };
     let et = std::thread::spawn(move || {
         let mut v = vec![];
         if let Some(mut s) = stderr {
@@ -512,7 +527,7 @@ fn oracle(sc: &Scn, cmd: &str, payload: &[u8], file: &str) -> Obs {
         }
         v
     });
-    let stdout = child.stdout.take();
+    let stdout = if sc.out_held() { None } else { child.stdout.take() };
     let ot = std::thread::spawn(move || {
         let mut v = vec![];
         if let Some(mut s) = stdout {
@@ -520,13 +535,114 @@ fn oracle(sc: &Scn, cmd: &str, payload: &[u8], file: &str) -> Obs {
         }
         v
     });
-    // `held`: std's `wait` closes the stdin it still holds
+    // `held`: std's `wait` closes the stdin it still holds. Handles left inside the `Child` are not read by
+    // anybody: a child that writes more than the pipe holds blocks under std as well; bound the wait.
+    let opid = child.id() as i32;
+    let done = std::sync::Arc::new(AtomicBool::new(false));
+    let killed = std::sync::Arc::new(AtomicBool::new(false));
+    if sc.out_held() || sc.err_held() {
+        let (done, killed) = (done.clone(), killed.clone());
+        std::thread::spawn(move || {
+            let t = Instant::now();
+            while t.elapsed() < Duration::from_millis(2500) {
+                std::thread::sleep(Duration::from_millis(25));
+                if done.load(Ordering::SeqCst) {
+                    return;
+                }
+            }
+            killed.store(true, Ordering::SeqCst);
+            unsafe { libc::kill(-opid, libc::SIGKILL) };
+        });
+    }
     o.status = child.wait().ok();
+    done.store(true, Ordering::SeqCst);
+    o.deadlock = killed.load(Ordering::SeqCst);
     o.out = ot.join().unwrap();
     o.w = wt.join().unwrap();
     o.err = et.join().unwrap();
     o.sunk = read_sunk(file);
     o
+}
+
+/// one step of a read plan: `read` with that much room, `read_exact` of a frame, `read_to_end`
+#[derive(Clone, Debug, PartialEq)]
+enum RStep {
+    Read(usize),
+    Exact(usize),
+    ToEnd,
+}
+
+/// `16.x8200.8192.e`: capacities of consecutive `read` calls, `x<n>` = `read_exact` of n bytes, `e` = `read_to_end`;
+/// the plan is repeated until end of file
+fn parse_rplan(t: &str) -> Option<Vec<RStep>> {
+    t.split('.')
+        .map(|x| {
+            if x == "e" {
+                Some(RStep::ToEnd)
+            } else if let Some(n) = x.strip_prefix('x') {
+                n.parse().ok().filter(|n| *n > 0).map(RStep::Exact)
+            } else {
+                x.parse().ok().filter(|n| *n > 0).map(RStep::Read)
+            }
+        })
+        .collect()
+}
+
+/// Read one handle with mixed request sizes. `expected` (what the same child produced under std::process)
+/// only decides whether a whole `read_exact` frame is still to come.
+async fn read_plan<R: AsyncRead>(mut r: R, plan: Vec<RStep>, expected: usize) -> (Vec<u8>, Option<String>) {
+    let mut acc: Vec<u8> = vec![];
+    loop {
+        for st in &plan {
+            let st = match st {
+                RStep::Exact(n) if acc.len() + n > expected => RStep::Read(*n),
+                s => s.clone(),
+            };
+            match st {
+                RStep::Read(n) => {
+                    let BufResult(res, buf) = r.read(Vec::with_capacity(n)).await;
+                    match res {
+                        Ok(0) => return (acc, None),
+                        Ok(k) => {
+                            bump();
+                            if k != buf.len() || k > buf.capacity() {
+                                return (acc, Some(format!("read-count:{k}/{}", buf.len())));
+                            }
+                            acc.extend_from_slice(&buf);
+                        }
+                        Err(e) if e.kind() == io::ErrorKind::Interrupted => {}
+                        Err(e) => return (acc, Some(format!("{:?}", e.kind()))),
+                    }
+                }
+                RStep::Exact(n) => {
+                    use compio_buf::{IntoInner, IoBufExt};
+                    let BufResult(res, buf) = r.read_exact(Vec::with_capacity(n).slice(..n)).await;
+                    let buf = buf.into_inner();
+                    match res {
+                        Ok(()) => {
+                            bump();
+                            if buf.len() != n {
+                                return (acc, Some(format!("read_exact-len:{}/{n}", buf.len())));
+                            }
+                            acc.extend_from_slice(&buf);
+                        }
+                        Err(e) => {
+                            acc.extend_from_slice(&buf);
+                            return (acc, Some(format!("read_exact:{:?}", e.kind())));
+                        }
+                    }
+                }
+                RStep::ToEnd => {
+                    let BufResult(res, buf) = r.read_to_end(acc).await;
+                    bump();
+                    return match res {
+                        Ok(_) => (buf, None),
+                        Err(e) => (buf, Some(format!("{:?}", e.kind()))),
+                    };
+                }
+            }
+        }
+    }
 }
 
 async fn read_loop<R: AsyncRead>(mut r: R, rch: usize, toend: bool) -> (Vec<u8>, Option<String>) {
@@ -615,7 +731,7 @@ fn after_wait(o: &mut Obs, pid: u32, r: io::Result<ExitStatus>) {
     }
 }
 
-async fn run_compio(sc: &Scn, cmd: &str, payload: Vec<u8>, file: &str) -> Obs {
+async fn run_compio(sc: &Scn, cmd: &str, payload: Vec<u8>, file: &str, expect: (usize, usize)) -> Obs {
     let mut o = Obs::default();
     let t0 = Instant::now();
     let toend = sc.opt("toend");
@@ -650,6 +766,20 @@ async fn run_compio(sc: &Scn, cmd: &str, payload: Vec<u8>, file: &str) -> Obs {
     c.stdout(Stdio::piped()).unwrap();
     c.stderr(Stdio::piped()).unwrap();
     unsafe { c.pre_exec(set_pipe_sizes(sc.capin, sc.capout, sc.caperr)) };
+    if sc.opt("status") {
+        // `Command::status()`: spawn + wait with every piped handle left inside the `Child`
+        match c.status().await {
+            Ok(st) => o.status = Some(st),
+            Err(e) => o.errors.push(format!("status:{:?}", e.kind())),
+        }
+        bump();
+        o.w = "ok".into();
+        o.capin = sc.capin as i64;
+        o.capout = sc.capout as i64;
+        o.caperr = sc.caperr as i64;
+        o.elapsed = t0.elapsed();
+        return o;
+    }
     let mut child = match c.spawn() {
         Ok(c) => c,
         Err(e) => {
@@ -664,7 +794,7 @@ async fn run_compio(sc: &Scn, cmd: &str, payload: Vec<u8>, file: &str) -> Obs {
     o.caperr = child.stderr.as_ref().map(|s| pipe_size(s.as_raw_fd())).unwrap_or(-1);
 
     let (wch, rch) = (sc.wch, sc.rch);
-    let held = sc.plan == "held";
+    let held = sc.plan == "held" || sc.plan == "allheld";
     let wwo = sc.opt("wwo");
     let stdin = if held { None } else { child.stdin.take() };
     let spawn_w = move |stdin: Option<ChildStdin>, payload: Vec<u8>| {
@@ -715,13 +845,47 @@ async fn run_compio(sc: &Scn, cmd: &str, payload: Vec<u8>, file: &str) -> Obs {
             o.w = w;
         }
     } else {
+        // readers: uniform requests (`rch` / read_to_end) or a plan of mixed request sizes
+        let rpo = sc.opt_val("rpo").and_then(parse_rplan);
+        let rpe = sc.opt_val("rpe").and_then(parse_rplan);
+        let (exp_o, exp_e) = expect;
+        macro_rules! reader {
+            ($h:expr, $rp:expr, $exp:expr) => {{
+                let (h, rp) = ($h, $rp.clone());
+                compio_runtime::spawn(async move {
+                    match rp {
+                        Some(p) => read_plan(h, p, $exp).await,
+                        None => read_loop(h, rch, toend).await,
+                    }
+                })
+            }};
+        }
+        if sc.out_held() || sc.err_held() {
+            // handles left inside the `Child`: they are dropped by compio when the wait has completed
+            let hw = spawn_w(stdin, payload);
+            let ho = if sc.out_held() { None } else { Some(reader!(child.stdout.take().unwrap(), rpo, exp_o)) };
+            let he = if sc.err_held() { None } else { Some(reader!(child.stderr.take().unwrap(), rpe, exp_e)) };
+            let r = child.wait().await;
+            after_wait(&mut o, pid, r);
+            if let Some(w) = join!(hw, "writer") {
+                o.w = w;
+            }
+            if let Some(ho) = ho {
+                reader_result!(join!(ho, "stdout"), out, "stdout");
+            }
+            if let Some(he) = he {
+                reader_result!(join!(he, "stderr"), err, "stderr");
+            }
+            o.elapsed = t0.elapsed();
+            return o;
+        }
         let stdout = child.stdout.take().unwrap();
         let stderr = child.stderr.take().unwrap();
         match sc.plan.as_str() {
             "conc" | "held" => {
                 let hw = spawn_w(stdin, payload);
-                let ho = compio_runtime::spawn(read_loop(stdout, rch, toend));
-                let he = compio_runtime::spawn(read_loop(stderr, rch, toend));
+                let ho = reader!(stdout, rpo, exp_o);
+                let he = reader!(stderr, rpe, exp_e);
                 let r = child.wait().await;
                 after_wait(&mut o, pid, r);
                 if let Some(w) = join!(hw, "writer") {
@@ -732,8 +896,8 @@ async fn run_compio(sc: &Scn, cmd: &str, payload: Vec<u8>, file: &str) -> Obs {
             }
             "drainwait" => {
                 let hw = spawn_w(stdin, payload);
-                let ho = compio_runtime::spawn(read_loop(stdout, rch, toend));
-                let he = compio_runtime::spawn(read_loop(stderr, rch, toend));
+                let ho = reader!(stdout, rpo, exp_o);
+                let he = reader!(stderr, rpe, exp_e);
                 if let Some(w) = join!(hw, "writer") {
                     o.w = w;
                 }
@@ -756,8 +920,8 @@ async fn run_compio(sc: &Scn, cmd: &str, payload: Vec<u8>, file: &str) -> Obs {
                 let hw = spawn_w(stdin, payload);
                 let r = child.wait().await;
                 after_wait(&mut o, pid, r);
-                let ho = compio_runtime::spawn(read_loop(stdout, rch, toend));
-                let he = compio_runtime::spawn(read_loop(stderr, rch, toend));
+                let ho = reader!(stdout, rpo, exp_o);
+                let he = reader!(stderr, rpe, exp_e);
                 if let Some(w) = join!(hw, "writer") {
                     o.w = w;
                 }
@@ -770,8 +934,8 @@ async fn run_compio(sc: &Scn, cmd: &str, payload: Vec<u8>, file: &str) -> Obs {
                 if let Some(w) = join!(hw, "writer") {
                     o.w = w;
                 }
-                let ho = compio_runtime::spawn(read_loop(stdout, rch, toend));
-                let he = compio_runtime::spawn(read_loop(stderr, rch, toend));
+                let ho = reader!(stdout, rpo, exp_o);
+                let he = reader!(stderr, rpe, exp_e);
                 let r = child.wait().await;
                 after_wait(&mut o, pid, r);
                 reader_result!(join!(ho, "stdout"), out, "stdout");
@@ -1061,7 +1225,7 @@ fn exec_line(line: &str, ex: &mut Exec) -> String {
     // the std::process run does not depend on the driver: shared between the scenarios of a pair
     let okey = format!(
         "{cmd}|{}|{}|{}|{}|{}|{}|{}|{}",
-        sc.paylen, sc.payseed, sc.capin, sc.capout, sc.caperr, sc.stdin_null, sc.plan == "held", sc.route == "pidfd"
+        sc.paylen, sc.payseed, sc.capin, sc.capout, sc.caperr, sc.stdin_null, if sc.plan.ends_with("held") { sc.plan.as_str() } else { "" }, sc.route == "pidfd"
     );
     let cached = ORACLE.with(|m| m.borrow().as_ref().filter(|(k, _)| *k == okey).map(|(_, o)| o.clone()));
     let orc = match cached {
@@ -1080,7 +1244,7 @@ fn exec_line(line: &str, ex: &mut Exec) -> String {
     // Otherwise a deadlock is a failure anyway: wait long enough to rule out a slow machine.
     let base_ms: u64 = std::env::var("C20_THRESH").ok().and_then(|x| x.parse().ok()).unwrap_or(if sc.opt("dl") { 1500 } else { 12000 });
     slot().thresh_ms.store(base_ms + 3 * NOP_MS * nops, Ordering::Relaxed);
-    let r = with_rt(&sc.drv, |rt| rt.block_on(run_compio(&sc, &cmd, payload.clone(), &cf)));
+    let r = with_rt(&sc.drv, |rt| rt.block_on(run_compio(&sc, &cmd, payload.clone(), &cf, (orc.out.len(), orc.err.len()))));
     slot().pid.store(0, Ordering::SeqCst);
     slot().t0_ms.store(0, Ordering::SeqCst);
     let mut o = match r {
@@ -1124,9 +1288,23 @@ fn exec_line(line: &str, ex: &mut Exec) -> String {
     }
 
     // ---- monitors (implementation only: std::process run of the same command, the command itself, the clock)
+    let held_stream = sc.out_held() || sc.err_held();
+    if held_stream && o.deadlock != orc.deadlock {
+        // a handle left inside the `Child`: compio must behave like std::process under the same plan
+        ex.fail(
+            "C20:status-differs",
+            format!(
+                "{line}: compio {} (status {:?}), std::process {} (status {:?})",
+                if o.deadlock { "never returns" } else { "returns" },
+                o.status.as_ref().map(show_status),
+                if orc.deadlock { "never returns" } else { "returns" },
+                orc.status.as_ref().map(show_status)
+            ),
+        );
+    }
     if o.deadlock {
         ex.tag("outcome:deadlock");
-        let by_design = sc.plan == "seq" || sc.plan == "waitdrain";
+        let by_design = sc.plan == "seq" || sc.plan == "waitdrain" || held_stream;
         if !by_design {
             // the threads of the oracle finished the same job with both directions active
             let sig = if sc.plan == "held" {
@@ -1175,7 +1353,8 @@ fn exec_line(line: &str, ex: &mut Exec) -> String {
         } else {
             match (&o.status, &orc.status) {
                 (Some(a), Some(b)) if a == b => {}
-                (a, b) => ex.fail("C20:status", format!("{line}: {:?} oracle {:?}", a, b)),
+                _ if held_stream && orc.deadlock => {}
+                (a, b) => ex.fail(if held_stream { "C20:status-differs" } else { "C20:status" }, format!("{line}: {:?} oracle {:?}", a, b)),
             }
         }
         if o.alive_after_wait {
@@ -1200,8 +1379,8 @@ fn exec_line(line: &str, ex: &mut Exec) -> String {
     }
     format!(
         "ok out={} err={} sunk={} w={} st={}",
-        show_bytes(&o.out),
-        show_bytes(&o.err),
+        if sc.out_held() { "-".to_string() } else { show_bytes(&o.out) },
+        if sc.err_held() { "-".to_string() } else { show_bytes(&o.err) },
         o.sunk,
         o.w,
         if o.lost { "lost".to_string() } else { o.status.as_ref().map(show_status).unwrap_or("none".into()) }
@@ -1746,6 +1925,85 @@ fn generate(tier: &str, rng: &mut Rng) -> Vec<Case> {
                     cases.push(Case { name: format!("pipeline-{n}"), lines: vec![format!("pipe {drv} {dir} {} {} -", script_text(&a), script_text(&b))] });
                 }
             }
+        }
+    }
+
+    // M. mixed request sizes on one handle (small header read, then large body reads; `read_exact` frames;
+    //    `read_to_end` after partial reads), output produced incrementally, stdout and stderr
+    {
+        const CAPS: [usize; 7] = [1, 16, 4096, 8191, 8192, 8193, 65536];
+        let rplan = |rng: &mut Rng| -> String {
+            let mut v: Vec<String> = vec![];
+            // start small so that something is left behind for the large request that follows
+            v.push((*rng.pick(&[1usize, 16, 16, 4096, 8191])).to_string());
+            for _ in 0..rng.range(1, 3) {
+                v.push(match rng.below(4) {
+                    0 => format!("x{}", *rng.pick(&[16usize, 8192, 8200, 10000, 20000])),
+                    _ => (*rng.pick(&CAPS[2..])).to_string(),
+                });
+            }
+            if rng.chance(1, 3) {
+                v.push("e".into());
+            }
+            v.join(".")
+        };
+        for k in 0..reps(6, 60) {
+            let mut sc = base("uring", dflt);
+            let (d1, d2) = if k % 3 == 2 { ('e', 'o') } else { ('o', 'e') };
+            let n2 = rng.range(9000, if thorough { 200000 } else { 90000 });
+            if k % 2 == 0 {
+                sc.stdin_null = true;
+                sc.script = vec![
+                    Act::Emit { dst: d1, byte: *rng.pick(b"HIJK"), n: rng.range(1, 600) },
+                    Act::Nop,
+                    Act::Emit { dst: d1, byte: *rng.pick(b"bcde"), n: n2 },
+                    Act::Emit { dst: d2, byte: b'f', n: rng.range(0, 9000) },
+                    Act::Emit { dst: d1, byte: b'g', n: rng.range(1, 9000) },
+                    Act::Exit(*rng.pick(&CODES)),
+                ];
+            } else {
+                // echo: the payload arrives in pieces of `wch`
+                sc.paylen = n2 as usize;
+                sc.payseed = rng.below(1000);
+                sc.wch = *rng.pick(&[7usize, 4096, 65537]);
+                sc.script = vec![Act::Emit { dst: d1, byte: b'H', n: rng.range(1, 100) }, cat(d1), Act::Exit(*rng.pick(&CODES))];
+            }
+            sc.opts.push(format!("rpo={}", rplan(rng)));
+            sc.opts.push(format!("rpe={}", rplan(rng)));
+            push2(&mut cases, "readplan", sc);
+        }
+    }
+
+    // N. handles configured as piped but left inside the `Child` (`wait`, `status`): they live as long as the
+    //    wait; the child writes to them (a few bytes: the real status must come back; more than the pipe
+    //    holds: blocks like std::process under the same plan)
+    for plan in ["outheld", "errheld", "allheld"] {
+        for k in 0..reps(2, 8) {
+            let mut sc = base("uring", if k % 2 == 0 { dflt } else { small });
+            sc.plan = plan.into();
+            sc.stdin_null = k % 3 != 1;
+            let (held_a, other) = match plan {
+                "outheld" => ('o', 'e'),
+                _ => ('e', 'o'),
+            };
+            let to_held = if k % 4 == 3 { sc.capout + rng.range(2000, 5000) } else { rng.range(1, 200) };
+            let mut script = vec![
+                Act::Nop,
+                Act::Emit { dst: other, byte: b'L', n: rng.range(0, 3000) },
+                Act::Emit { dst: held_a, byte: b'W', n: to_held },
+                Act::Emit { dst: other, byte: b'M', n: rng.range(1, 3000) },
+            ];
+            if plan == "allheld" {
+                script.push(Act::Emit { dst: 'o', byte: b'V', n: rng.range(1, 100) });
+            }
+            script.push(Act::Exit(*rng.pick(&[1u32, 2, 3, 7, 255, 0])));
+            sc.script = script;
+            if to_held > sc.capout {
+                sc.opts.push("dl".into());
+            } else if plan == "allheld" && k % 2 == 0 {
+                sc.opts.push("status".into());
+            }
+            push2(&mut cases, "held-stream", sc);
         }
     }
 
